@@ -435,6 +435,13 @@ class Check:
         self.known_hits[fid] = what or e['what']
         return True
 
+    def known_by_sig(self, sig):
+        for pat, e in self.findings.signatures().items():
+            if re.fullmatch(pat, sig):
+                self.known_hits[e['id']] = e['what']
+                return True
+        return False
+
     def violation(self, key, desc, replay):
         """key: stable identifier of the kind of violation (used to de-duplicate)."""
         for k, _, _ in self.violations:
